@@ -65,7 +65,12 @@ def gen_spec(rng, malformed, tr_type):
         attr = rng.choice(ATTRS)
         if malformed and rng.random() < 0.2:
             attr = [40]
-    name = rng.choice([20, 20, 21, 22] + (TYPE_NAMES[tr_type[0]][:2] if rng.random() < 0.3 else []))
+    foreign = [n for n in (1, 2, 3, 4) if n not in TYPE_NAMES[tr_type[0]]]
+    name = rng.choice([20, 20, 21, 22] + (foreign if rng.random() < 0.4 else []))
+    if name < 20 and reads is None and (attr == [] or attr == [40]):
+        attr = rng.choice(ATTRS[:9])      # a monitor another trainer may read by name records tensor data
+    if name < 20 and reads is not None:
+        name = 20
     tags = rng.choice([[], [[8, 0]], [[8, 1]], [[8, 0], [9, 1]], [[9, 1], [8, 0]]])
     return {"name": name, "attr": attr, "unique": rng.random() < 0.25, "tags": tags,
             "prepend": rng.random() < 0.6 if reads is None else rng.random() < 0.15, "reads": reads}
@@ -365,7 +370,9 @@ def oracle_case(case, ti):
                     shared_deleted.add(g[2])
         sp.apply(op, raised)
         if op[0] == "reg" and not raised:
-            binders.setdefault(tuple(op[3]), set()).add(op[1])
+            binders.setdefault(tuple(op[3]), set()).add((op[1], op[2]))
+        if op[0] == "addmon" and not raised and op[2] in sp.cells[op[1]]:
+            binders.setdefault(tuple(sp.cells[op[1]][op[2]]), set()).add((op[1], op[2], "user"))
         mon = {m[0]: m for m in ms}
         owner = {}
         for t, tr in enumerate(trs):
@@ -380,6 +387,7 @@ def oracle_case(case, ti):
                 fail("monitor_name_rebinding", j, {"what": "layer call raised", "message": msg})
             elif not user_reads_unbound(case, j):
                 fail("layer_step_raised", j, {"what": "layer call raised", "message": msg})
+            break        # hooks after the failing one did not run: what follows is not judged
         # --- listings
         for t, tr in enumerate(trs):
             if not sp.alive[t]:
@@ -414,7 +422,10 @@ def oracle_case(case, ti):
                             continue
                         cell = tuple(sp.cells[t][cn])
                         if rn != own[name]:
-                            kind = "monitor_name_rebinding" if cell in multi else "foreign_read"
+                            # bound to a monitor of another registration of the same cell object?
+                            other = any(n3 == rn and (t3, c3) != (t, cn) and tuple(sp.cells[t3].get(c3, ())) == cell
+                                        for t3, tr3 in enumerate(trs) if tr3 for c3, _m3, n3 in tr3[2])
+                            kind = "monitor_name_rebinding" if (other and cell in multi) else "foreign_read"
                             fail(kind, j, {"what": "reads a monitor that is not this trainer's", "trainer": t, "cell": cn,
                                            "monitor": mn, "name": name, "bound_to": rn, "own": own[name]})
                         elif last != [stamp]:
